@@ -35,32 +35,36 @@ Anchor(c, where) == LET C == BCell(c)
 Dir(where) == CASE where = "inside" -> <<1, 0, 0>> [] where = "face" -> <<1, 0, 0>> [] where = "edge" -> <<3, 4, 0>> [] where = "corner" -> <<2, 3, 6>>
 DirLen(where) == CASE where = "inside" -> 1 [] where = "face" -> 1 [] where = "edge" -> 5 [] where = "corner" -> 7
 
-PairCases ==
-  UNION {{Mk(q[1], <<At(q[3], W(q[1], Anchor(q[1], q[2]))), At(q[4], W(q[1], VAdd3(Anchor(q[1], q[2]), VMul3(k, Dir(q[2])))))>>, "pair") :
-              k \in {(Cut(q[3], q[4]) \div DirLen(q[2])) - 1, (Cut(q[3], q[4]) \div DirLen(q[2])) + 1}} :
-           q \in {"ortho", "tri"} \X {"inside", "face", "edge", "corner"} \X PairElems \X PairElems}
-
-ScanCases ==
-  {Mk(c, <<At(p[1], <<60, 30, 500>>), At(p[2], W(c, <<60 + ScanStep * i, 30 + ScanStep * j, 500 + 20 * (i % 3)>>))>>, "scan") :
-      c \in {"shearp", "shearm", "tri", "ortho"}, p \in {<<"Zr", "Zr">>, <<"Cs", "I">>, <<"C", "C">>, <<"Cu", "O">>},
-      i \in 0..(600 \div ScanStep), j \in 0..(600 \div ScanStep)}
+\* The state is first a cheap *chunk descriptor* (so that initial-state enumeration, which is single threaded, does no
+\* geometry) and then one crystal of that chunk (computed by the workers in parallel).
+PairsOf(q) ==      \* q = <<cell, where, e1, e2>>
+  {Mk(q[1], <<At(q[3], W(q[1], Anchor(q[1], q[2]))), At(q[4], W(q[1], VAdd3(Anchor(q[1], q[2]), VMul3(k, Dir(q[2])))))>>, "pair") :
+      k \in {(Cut(q[3], q[4]) \div DirLen(q[2])) - 1, (Cut(q[3], q[4]) \div DirLen(q[2])) + 1}}
+ScansOf(q) ==      \* q = <<cell, <<e1, e2>>, i>>
+  {Mk(q[1], <<At(q[2][1], <<60, 30, 500>>), At(q[2][2], W(q[1], <<60 + ScanStep * q[3], 30 + ScanStep * j, 500 + 20 * (q[3] % 3)>>))>>, "scan") :
+      j \in 0..(600 \div ScanStep)}
 
 Sites == <<At("C", <<50, 50, 50>>), At("O", <<170, 60, 50>>), At("H", <<560, 580, 50>>), At("Zn", <<20, 300, 850>>),
            At("C", <<580, 40, 860>>), At("Cu", <<300, 300, 400>>), At("O", <<460, 330, 420>>)>>
 SubsetsOf(n, k) == {S \in SUBSET (1..n) : Cardinality(S) = k}
 SeqOf(S) == LET RECURSIVE F(_)
-                F(T) == IF T = {} THEN <<>> ELSE LET m == CHOOSE m \in T : \A y \in T : m <= y IN <<m>> \o F(T \ {m})
+                F(QQ) == IF QQ = {} THEN <<>> ELSE LET m == CHOOSE m \in QQ : \A y \in QQ : m <= y IN <<m>> \o F(QQ \ {m})
             IN F(S)
-MultiCases ==
-  {Mk(c, [n \in 1..Cardinality(S) |-> LET a == Sites[SeqOf(S)[n]] IN At(a.el, W(c, VAdd3(a.pos, v)))], "multi") :
-      c \in {"ortho", "tri", "none"}, S \in UNION {SubsetsOf(7, k) : k \in 2..4},
+MultisOf(q) ==     \* q = <<cell, S>>
+  {Mk(q[1], [n \in 1..Cardinality(q[2]) |-> LET a == Sites[SeqOf(q[2])[n]] IN At(a.el, W(q[1], VAdd3(a.pos, v)))], "multi") :
       v \in {<<0, 0, 0>>, <<130, -260, 415>>}}
 
-Init == x \in {y \in PairCases \cup ScanCases \cup MultiCases : ~Ambiguous(y) /\ InsideB(y) /\ WidthsOKB(y)
-                                                              /\ \A i, j \in 1..Len(y.atoms) : i # j => y.atoms[i].pos # y.atoms[j].pos}
-Next == UNCHANGED x
+Chunks == {[kind |-> "chunk", what |-> "pair", q |-> q] : q \in {"ortho", "tri"} \X {"inside", "face", "edge", "corner"} \X PairElems \X PairElems}
+          \cup {[kind |-> "chunk", what |-> "scan", q |-> q] :
+                   q \in {"shearp", "shearm", "tri", "ortho"} \X {<<"Zr", "Zr">>, <<"Cs", "I">>, <<"C", "C">>, <<"Cu", "O">>} \X (0..(600 \div ScanStep))}
+          \cup {[kind |-> "chunk", what |-> "multi", q |-> q] : q \in {"ortho", "tri", "none"} \X UNION {SubsetsOf(7, k) : k \in 2..4}}
+CrystalsOf(c) == IF c.what = "pair" THEN PairsOf(c.q) ELSE IF c.what = "scan" THEN ScansOf(c.q) ELSE MultisOf(c.q)
+Valid(y) == ~Ambiguous(y) /\ InsideB(y) /\ WidthsOKB(y) /\ \A i, j \in 1..Len(y.atoms) : i # j => y.atoms[i].pos # y.atoms[j].pos
+
+Init == x \in Chunks
+Next == x.kind = "chunk" /\ x' \in {y \in CrystalsOf(x) : Valid(y)}
 Spec == Init /\ [][Next]_vars
 \* the design (27 images of one atom against the other) finds exactly the minimum-image bonds
-DesignInv == AlgoBonds(x) = DefBonds(x)
-EmitInv == Emit => PrintT(<<"CRYSTAL", ToJson(x)>>)
+DesignInv == x.kind # "chunk" => AlgoBonds(x) = DefBonds(x)
+EmitInv == (Emit /\ x.kind # "chunk") => PrintT(<<"CRYSTAL", ToJson(x)>>)
 =============================================================================
